@@ -434,6 +434,58 @@ def rewrite_R3(text, counts):
     return text
 
 
+def rewrite_R3d(text, counts):
+    """`match *S { [P] => A, _ => B }` -> `if S.len() == 1 { match S[0] { P => A, _ => B } } else { B }` (single-element slice pattern;
+    B must be a plain expression without side effects: it is duplicated)"""
+    toks = rl.sig(rl.lex(text))
+    for i, t in enumerate(toks):
+        if t.text != "match" or toks[i + 1].text != "*":
+            continue
+        j = i + 2
+        while j < len(toks) and toks[j].text != "{":
+            if toks[j].text in ("(", "["):
+                j = rl.match_close(toks, j)
+            j += 1
+        if toks[j + 1].text != "[":
+            continue
+        pc = rl.match_close(toks, j + 1)
+        if [x.text for x in toks[pc + 1:pc + 3]] != ["=", ">"]:
+            continue
+        mclose = rl.match_close(toks, j)
+        S = text[toks[i + 2].pos:toks[j - 1].end]
+        P = text[toks[j + 2].pos:toks[pc - 1].end]
+        if ".." in P or any(x.text == "," and d == 0 for d, x in _depths(toks[j + 2:pc])):
+            continue
+        a0 = pc + 3
+        a_end, nxt = _arm_end(toks, a0)
+        A = text[toks[a0].pos:toks[a_end - 1].end]
+        if [x.text for x in toks[nxt:nxt + 3]] != ["_", "=", ">"]:
+            continue
+        b0 = nxt + 3
+        b_end, nxt2 = _arm_end(toks, b0)
+        B = text[toks[b0].pos:toks[b_end - 1].end]
+        if nxt2 != mclose or not re.match(r"^[A-Za-z_][A-Za-z0-9_:]*$", B):
+            continue
+        new = "if %s.len() == 1 { match %s[0] { %s => %s, _ => %s } } else { %s }" % (S, S, P, A, B, B)
+        orig = text[t.pos:toks[mclose].end]
+        counts["R3"] = counts.get("R3", 0) + 1
+        return text[:t.pos] + _rw("R3", orig, new) + text[toks[mclose].end:]
+    return text
+
+
+def _depths(toks):
+    d = 0
+    for x in toks:
+        if x.text in rl.OPEN:
+            d += 1
+            yield d - 1, x
+        elif x.text in rl.CLOSE:
+            d -= 1
+            yield d, x
+        else:
+            yield d, x
+
+
 def restore_safe(text):
     return text
 
@@ -930,6 +982,7 @@ class Extraction:
             t = rewrite_R4(t, c)
             t = rewrite_R3(t, c)
             t = rewrite_R3c(t, c)
+            t = rewrite_R3d(t, c)
             lifted = []
             try:
                 if key in self.cfg.get("lift_closures", {}):
